@@ -140,13 +140,12 @@ def handleC13 (c : Case) : Verdict :=
       | none => acc
     -- "before its lock could be judged stale by others": with the real constants (or the same
     -- proportions for the shortened lockers) and a fault script within the property's assumption
-    -- (2·D + p + 2·eps fits into the margin S − R of the source) no active age reaches S − 2·eps
+    -- (2·D + p ≤ S/6, i.e. 5 min for the real 30 min) no active age reaches S − 2·eps
     let realC := pr.getD 4 "0" == "1"
     let sReal := Restic.Gen.lock_staleLockTimeout_ns / 1000
-    let rReal := Restic.Gen.lock_refreshabilityTimeout_ns / 1000
     let stale := if realC then sReal else rt * 4 / 3
     let eps := stale / 30
-    let acc := if 2 * dOp + poll + 2 * eps + (if realC then rReal else rt) ≤ stale ∨ !realC && 2 * dOp + poll + 2 * eps + rt ≤ stale then
+    let acc := if 2 * dOp + poll ≤ stale / 6 then
         (if acc.ages.any (fun a => a + 2 * eps > stale) then
           acc.bad "C13:active-with-stale-lock" s!"kind={kind} staleTimeout={stale} eps={eps} ages={acc.ages.reverse}" else acc.label "within-margin-assumption")
       else acc
